@@ -736,6 +736,15 @@ func writeEvidence(plan *PropPlan, tier string, seed uint64, a *agg, wall float6
 		"wall_s":      wall,
 		"violations":  nviol,
 	}
+	if os.Getenv("SIM_REPO") != "" {
+		// a run against a scratch copy (seeded defects, benign changes) is not
+		// evidence about /repo: keep it out of /verif/evidence
+		dir := filepath.Join(os.TempDir(), "simcheck-scratch-evidence")
+		os.MkdirAll(dir, 0o755)
+		sb, _ := json.MarshalIndent(ev, "", " ")
+		os.WriteFile(filepath.Join(dir, plan.ID+".json"), append(sb, '\n'), 0o644)
+		return
+	}
 	os.MkdirAll(filepath.Join(verifDir, "evidence"), 0o755)
 	b, _ := json.MarshalIndent(ev, "", " ")
 	if err := os.WriteFile(filepath.Join(verifDir, "evidence", plan.ID+".json"), append(b, '\n'), 0o644); err != nil {
